@@ -173,6 +173,12 @@ def grids_body(ctx: Ctx, p: dict) -> None:
 def range_cases(draw):
     pair = draw(gen.image_pair(min_rows=7, max_rows=12, min_cols=10, max_cols=16, max_val=20, masks=True))
     pipe = draw(gen.legal_pipeline(validation="maybe"))
+    if draw(st.integers(0, 2)) == 0:
+        # a filter between the disparity step and a refinement: refinement then works on disparities it did not pick
+        i_d = [n for n, _ in pipe].index("disparity")
+        pipe.insert(i_d + 1, ["filter.pre", {"filter_method": "median", "filter_size": 3}])
+        if not any(n.split(".")[0] == "refinement" for n, _ in pipe[i_d + 2:]):
+            pipe.insert(i_d + 2, ["refinement.post", {"refinement_method": draw(st.sampled_from(["vfit", "quadratic"]))}])
     A = draw(st.integers(-5, 3))
     A, B = gen.clamp_interval([A, A + draw(st.integers(0, 5))], pair["W"], pipe)
     use_grid = draw(st.booleans())
@@ -223,7 +229,8 @@ def range_body(ctx: Ctx, p: dict) -> None:
                 bad = valid & ~((d >= lo - 1e-6) & (d <= hi + 1e-6))
                 if kind == "refinement" and bad.any() and state.get("off_mask") is not None:
                     # a repeated refinement receives off-sample disparities: the known finding, bounded by half a sample
-                    half_ = 0.5 / state["subpix"] + 1e-6
+                    n_ref_ = sum(1 for n_, _c in p["pipeline"] if n_.split(".")[0] == "refinement")
+                    half_ = n_ref_ * 0.5 / state["subpix"] + 1e-6
                     known = bad & state["off_mask"] & (d >= lo - half_) & (d <= hi + half_)
                     if known.any():
                         r, c = np.argwhere(known)[0]
@@ -240,7 +247,9 @@ def range_body(ctx: Ctx, p: dict) -> None:
     d, m = res.left["disparity_map"].data, res.left["validity_mask"].data
     valid = (m & INV) == 0
     bad = valid & ~((d >= gmin - 1e-6) & (d <= gmax + 1e-6))
-    half = 0.5 / state["subpix"] + 1e-6
+    # every refinement step can add up to half a sample to an off-sample disparity (known finding)
+    n_ref = sum(1 for n, _ in p["pipeline"] if n.split(".")[0] == "refinement")
+    half = n_ref * 0.5 / state["subpix"] + 1e-6
     if bad.any() and state["offsample_refined"] and not (valid & ~((d >= gmin - half) & (d <= gmax + half))).any():
         r, c = np.argwhere(bad)[0]
         ctx.violation("C09/refinement-of-off-sample-disparity-leaves-interval",
@@ -256,9 +265,14 @@ def range_body(ctx: Ctx, p: dict) -> None:
         dr, mr = res.right["disparity_map"].data, res.right["validity_mask"].data
         vr = (mr & INV) == 0
         badr = vr & ~((dr >= -gmax - 1e-6) & (dr <= -gmin + 1e-6))
-        if badr.any():
+        if badr.any() and state["offsample_refined"] and not (vr & ~((dr >= -gmax - half) & (dr <= -gmin + half))).any():
             r, c = np.argwhere(badr)[0]
-            ctx.violation("C09/final-right-disparity-outside-global-interval", f"pixel {(int(r), int(c))} d={dr[r, c]}")
+            ctx.violation("C09/refinement-of-off-sample-disparity-leaves-interval",
+                          f"right pixel {(int(r), int(c))} d={dr[r, c]} interval [{-gmax},{-gmin}] pipeline={p['pipeline']}")
+        elif badr.any():
+            r, c = np.argwhere(badr)[0]
+            ctx.violation("C09/final-right-disparity-outside-global-interval", f"pixel {(int(r), int(c))} d={dr[r, c]} "
+                                                                               f"interval [{-gmax},{-gmin}] pipeline={p['pipeline']}")
     ctx.judged += int(valid.sum())
     classes = ["grid" if "grid" in p else "scalar"]
     if any("interpolated_disparity" in c for _, c in p["pipeline"]):
